@@ -615,7 +615,9 @@ def check_object_forms(case):
          np.concatenate([tot, ref], axis=0)[:, :, 0:1]),
     ]
     for nm, fn_, exp_ in mixed_src:
-        forms.append((nm, (lambda s, q, fn_=fn_: pathfix(fn_(s, q))), exp_, False, sc * L))
+        # (rtol 1e-10 like the history form: the same source evaluated in a differently composed batch agrees to rounding of
+        #  the vectorised core only, 1.6e-11 seen for CylinderSegment; a permuted or wrong row differs at order 1)
+        forms.append((nm, (lambda s, q, fn_=fn_: pathfix(fn_(s, q))), exp_, False, sc * L, False, 1e-10))
     # mixed OBSERVER lists in every order: position arrays before / between / after sensors and sensor collections
     PL = case.get("obs_like")
     if PL:
@@ -640,7 +642,7 @@ def check_object_forms(case):
             # the position arrays may lie inside a body while all sensors are outside (J/M: sensors see 0): the tolerance
             # is relative to the scale of the whole expected array, not only of the sensors' part
             forms.append((nm, (lambda s, q, fn_=fn_: pathfix(fn_(s, q))), exp_, False,
-                          max(sc, scale_of(exp_) or 0.0) * L))
+                          max(sc, scale_of(exp_) or 0.0) * L, False, 1e-10))
     # plain position arrays as observers: list / tuple / ndarray / a Sensor at the origin carrying them as pixels
     P = case.get("obs_positions")
     if P is not None:
